@@ -16,7 +16,18 @@ import (
 
 type Rand struct{ s uint64 }
 
-func NewRand(seed uint64) *Rand { return &Rand{s: seed*0x9E3779B97F4A7C15 + 0x1234567} }
+// NewRand: the state advances by a fixed odd constant per draw, so the initial state must not be an affine function of the
+// seed with that same constant (seeds k and k+1 would then give one stream, shifted by a draw): the seed goes through
+// murmur3's 64-bit finaliser first.
+func NewRand(seed uint64) *Rand {
+	z := seed + 0x1234567
+	z ^= z >> 33
+	z *= 0xFF51AFD7ED558CCD
+	z ^= z >> 33
+	z *= 0xC4CEB9FE1A85EC53
+	z ^= z >> 33
+	return &Rand{s: z}
+}
 
 func (r *Rand) U64() uint64 {
 	r.s += 0x9E3779B97F4A7C15
